@@ -1063,7 +1063,10 @@ impl PoolCase {
             };
         }
         drop(pool_b);
+        // not dropped: its CLOSE would go through the second ring's teardown, which this component's
+        // event bookkeeping does not follow; the descriptor itself is closed by hand
         std::mem::forget(fd_b);
+        unsafe { libc::close(raw_b) };
         drop(sq_b);
         drop(ring_b);
         let _ = util::drain_wakes();
